@@ -168,7 +168,48 @@ func (fr *frame) binop(op token.Token, xt, yt types.Type, x, y Value) Value {
 		case token.GEQ:
 			return Not(strLt(a, b))
 		}
+	case FloatSym:
+		b, ok := y.(FloatV)
+		if !ok {
+			break
+		}
+		thr := float64(b) * (1 << 53)
+		fl, ce := math.Floor(thr), math.Ceil(thr)
+		if fl < 0 {
+			fl, ce = -1, 0
+		}
+		if ce > 1<<53 {
+			fl, ce = 1<<53, 1<<53
+		}
+		num := ZExt(a.Num, 64)
+		switch op {
+		case token.LSS: // num < thr  <=>  num < ceil(thr)
+			return BVSlt(num, BVI(64, int64(ce)))
+		case token.LEQ:
+			return BVSle(num, BVI(64, int64(fl)))
+		case token.GTR:
+			return BVSlt(BVI(64, int64(fl)), num)
+		case token.GEQ:
+			return BVSle(BVI(64, int64(ce)), num)
+		}
 	case FloatV:
+		if bs, ok := y.(FloatSym); ok {
+			// c op sym  ==  sym op' c
+			var rev token.Token
+			switch op {
+			case token.LSS:
+				rev = token.GTR
+			case token.LEQ:
+				rev = token.GEQ
+			case token.GTR:
+				rev = token.LSS
+			case token.GEQ:
+				rev = token.LEQ
+			default:
+				panic(unsupported("float op on symbolic float"))
+			}
+			return fr.binop(rev, yt, xt, bs, a)
+		}
 		b := y.(FloatV)
 		switch op {
 		case token.ADD:
